@@ -413,8 +413,46 @@ func init() {
 		for _, n := range []string{"validType", "criteriaType", "operatorType"} {
 			c18StrMap(w, n, true)
 		}
-		for _, n := range []string{"drawContFmtFunc", "extractContFmtFunc"} {
+		for _, n := range []string{"drawContFmtFunc", "extractContFmtFunc", "condFmtIconSetPresets"} {
 			c18StrMap(w, n, false)
+		}
+		if cl, ok := constExpr("cellIsCriteriaType").(*ast.CompositeLit); ok {
+			var xs []string
+			for _, e := range cl.Elts {
+				if bl, ok := e.(*ast.BasicLit); ok {
+					xs = append(xs, unq(bl.Value))
+				}
+			}
+			fmt.Fprintf(w, "def cellIsCriteriaType : List String := %s\n", c18StrList(xs))
+		} else {
+			fail("var cellIsCriteriaType = []string{...}")
+		}
+		if fn := funcDecl("File", "SetConditionalFormat"); fn == nil {
+			fail("func (f *File) SetConditionalFormat")
+		} else {
+			var xs []string
+			ast.Inspect(fn.Body, func(n ast.Node) bool {
+				vs, ok := n.(*ast.ValueSpec)
+				if !ok {
+					return true
+				}
+				for i, nm := range vs.Names {
+					if nm.Name == "noCriteriaTypes" && i < len(vs.Values) {
+						if cl, ok := vs.Values[i].(*ast.CompositeLit); ok {
+							for _, e := range cl.Elts {
+								if bl, ok := e.(*ast.BasicLit); ok {
+									xs = append(xs, unq(bl.Value))
+								}
+							}
+						}
+					}
+				}
+				return true
+			})
+			if xs == nil {
+				fail("SetConditionalFormat: noCriteriaTypes = []string{...}")
+			}
+			fmt.Fprintf(w, "def noCriteriaTypes : List String := %s\n", c18StrList(xs))
 		}
 	})
 }
